@@ -47,6 +47,9 @@ type c11Case struct {
 	Late   bool   `json:"option_applied_with_WithOptions_after_New,omitempty"`
 	// Reattach: ONE Route value is attached to a router of the other StrictLastSlash setting first, then to the router under test
 	Reattach bool `json:"route_value_attached_to_another_router_first,omitempty"`
+	// AfterMiss: caching router; every request spelling was asked (and missed) BEFORE the route - the registered string
+	// with each 'a' turned into a variable {v} - was registered
+	AfterMiss bool `json:"dynamic_route_registered_after_every_spelling_missed,omitempty"`
 	// Named: the route is registered through the named-route API (AddNamed)
 	Named bool `json:"registered_with_AddNamed,omitempty"`
 }
@@ -161,6 +164,14 @@ func c11Gen(tier string, emit func(c11Case)) {
 			emit(c11Case{Kind: "square", Strict: strict, P: p, L: 4, Named: true})
 		}
 	}
+	// a dynamic route registered on a caching router after every spelling of the request path was asked and missed
+	for _, strict := range []bool{false, true} {
+		for _, p := range c11Get(3).strs {
+			if strings.Contains(p, "a") {
+				emit(c11Case{Kind: "square", Strict: strict, P: p, L: 3, AfterMiss: true})
+			}
+		}
+	}
 	// the option given to WithOptions after New() instead of to New()
 	for _, p := range c11Get(4).strs {
 		emit(c11Case{Kind: "square", Strict: true, P: p, L: 4, Late: true})
@@ -219,6 +230,47 @@ func c11Run(c c11Case, st *fw.Stats) []fw.Viol {
 		}
 		if c.Reattach {
 			sm += fmt.Sprintf(" (the Route value was attached to a router with strict=%v first)", !c.Strict)
+		}
+		if c.AfterMiss {
+			dyn := strings.ReplaceAll(c.P, "a", "{v}")
+			sm += " caching router; every request path below was asked once before the route existed"
+			var r *rux.Router
+			if pv := try(func() {
+				r = rux.New(append(c11Opts(c.Strict), rux.EnableCaching)...)
+				r.GET("/zz9/{w}", h) // (an unrelated dynamic route exists from the start; no request of the alphabet reaches it)
+				for _, q := range set.strs {
+					_, _, _ = r.Match("GET", q)
+				}
+				r.GET(dyn, h)
+			}); pv != nil {
+				// (a definition the router rejects - the same variable twice - is C13's subject, not a lookup question)
+				st.Inc("after_miss_definitions_rejected", 1)
+				return viols
+			}
+			np := refmodel.Norm(dyn, c.Strict)
+			pat, err := refmodel.CachedPattern(np)
+			if err != nil {
+				return viols
+			}
+			norms := set.norm[b2i(c.Strict)]
+			for round := 0; round < 2; round++ {
+				for qi, q := range set.strs {
+					st.Evals++
+					want := pat.Matches(norms[qi])
+					if want {
+						st.Nontrivial++
+					}
+					var got bool
+					if pv := try(func() { m, _, _ := r.Match("GET", q); got = m != nil }); pv != nil {
+						add("lookup:panic", fmt.Sprintf("%s: route %q: Match(GET,%q) panicked: %v", sm, dyn, q, pv))
+						continue
+					}
+					if got != want {
+						add(fmt.Sprintf("lookup:reach:want=%v", want), fmt.Sprintf("%s: route registered as %q (normal form %q): request path %q (normal form %q) reaches it = %v, expected %v", sm, dyn, np, q, norms[qi], got, want))
+					}
+				}
+			}
+			return viols
 		}
 		var r *rux.Router
 		var rt *rux.Route
@@ -611,7 +663,7 @@ func c11Run(c c11Case, st *fw.Stats) []fw.Viol {
 var c11Spec = fw.Spec[c11Case]{
 	ID:    "C11",
 	Level: "model_checking",
-	Rule: "complete enumeration: ALL strings of length <=L over {'/',' ','.','a','b',TAB} as registered path P and as request path Q - the full P x Q square in both StrictLastSlash modes (and again for all strings of <=3 characters over {'/','a',space,U+00A0,U+3000,U+0085,U+2003}, and for all strings of <=4 characters with StrictLastSlash applied through WithOptions after New(), with the route registered through AddNamed in both modes, and, without StrictLastSlash, with the Route value attached to a StrictLastSlash router first) (one evaluation = one GET and one HEAD lookup of Q on a router holding GET P; reach <=> Norm(Q)==Norm(P)); " +
+	Rule: "complete enumeration: ALL strings of length <=L over {'/',' ','.','a','b',TAB} as registered path P and as request path Q - the full P x Q square in both StrictLastSlash modes (and again for all strings of <=3 characters over {'/','a',space,U+00A0,U+3000,U+0085,U+2003}, and for all strings of <=4 characters with StrictLastSlash applied through WithOptions after New(), with the route registered through AddNamed in both modes, and, without StrictLastSlash, with the Route value attached to a StrictLastSlash router first; and, for strings of <=3 characters, with every 'a' of P turned into a variable and the route registered on a caching router only after every Q was asked and missed) (one evaluation = one GET and one HEAD lookup of Q on a router holding GET P; reach <=> Norm(Q)==Norm(P)); " +
 		"all G x P x Q over strings of length <=3 for group prefixes and all nested G1 x G2 x P over strings of length <=2; all raw paths of <=4 tokens over {/,a,b,%2F,%2f,%20,space,|,%7C}, each with four RequestURI values (absent, equal, stale prefix, *) under both UseEncodedPath settings (directly and handed on by a front router with HandleContext); 8 dynamic routes with dots in their literal text against all request strings of <=6 characters over {/,.,a,b,x} (and 5 routes with dots in a literal head of two or three path nodes against all strings of <=8 / 9 characters); all request histories of <=3 over 8 paths with and without trailing slashes on caching routers (capacity 1, 2, 8) in both StrictLastSlash modes; static, multi-segment and dynamic routes of every length 1..300 bytes under three methods with nine request variations each; InterceptAll(p) with the route registered as p for all strings p of length <=3, in every option order, against all requests of length <=2; non-trivial = a (P,Q) pair that must reach the route / an escaped path that differs from the decoded one",
 	Assume: []string{"alphabet of 6 characters; L=5 quick, 6 thorough", "net/url's EscapedPath is taken as the definition of 'the escaped path'"},
 	Bounds: func(tier string) map[string]any {
